@@ -437,6 +437,36 @@ def private_closure(chk):
     return n
 
 
+# tentative definitions of arrays of unknown size (6.9.2p2, p5 EXAMPLE 2: defined at the end of the unit as if with one element, unless completed)
+TENTATIVE_ARRAYS = [
+    ('int a[];', 4), ('int a[]; int a[3];', 12), ('int a[3]; int a[];', 12), ('int a[]; int f(void) { return a[0]; }', 4), ('extern int a[]; int a[];', 4),
+    ('int a[]; extern int a[];', 4), ('int a[]; int a[];', 4), ('double a[][2];', 16), ('int a[]; int a[] = {1, 2};', 8), ('typedef int T[]; T a; T b = {1, 2};', 4),
+    ('char a[]; char *p = a;', 1), ('struct s { int x, y; }; struct s a[];', 8), ('extern int a[]; int *f(void) { return a; } int a[];', 4),
+]
+
+
+def tentative_arrays(chk):
+    n = 0
+    for src, size in TENTATIVE_ARRAYS:
+        for t in ('x86_64-sysv', 'aarch64', 'riscv64'):
+            r = fs.server('fs').compile(src.encode(), target=t, cpu_s=10)
+            n += 1
+            if r.status != 0:
+                w = subprocess.run(['gcc', '-std=c11', '-fsyntax-only', '-xc', '-'], input=src.encode(), stdout=subprocess.PIPE, stderr=subprocess.PIPE)
+                w2 = subprocess.run(['clang', '-std=c11', '-fsyntax-only', '-xc', '-'], input=src.encode(), stdout=subprocess.PIPE, stderr=subprocess.PIPE)
+                if w.returncode == 0 and w2.returncode == 0:
+                    chk.violation('tentative-array/rejected', 'unit %r (gcc and clang accept it) gives status %s: %s' % (src, r.status, r.err.decode(errors='replace')[:200]),
+                                  files={'input.c': src.encode()}, cmd='$CPROC_QBE -t %s input.c' % t)
+                continue
+            m = ilparse.parse(r.out)
+            ds = [d for d in m.data if _nm(d.name) == 'a']
+            got = [(bool(d.export), len(ilparse.data_image(d)[0])) for d in ds]
+            if len(ds) != 1 or not ds[0].export or (got[0][1] is not None and got[0][1] != size):
+                chk.violation('tentative-array/definition', 'unit %r must define a exactly once, exported, with %d bytes; definitions found: %r' % (src, size, got),
+                              files={'input.c': src.encode()}, cmd='$CPROC_QBE -t %s input.c' % t)
+    return n
+
+
 def main(chk):
     maxlen = 3 if chk.quick else 4
     stats = {'states': set(), 'transitions': set()}
@@ -486,7 +516,7 @@ def main(chk):
                     linkref(hist, kind, stats)
                 except (Invalid, Ambiguous):
                     pass
-    nprivate = private_closure(chk)
+    nprivate = private_closure(chk) + tentative_arrays(chk)
     chk.log('%d disagreements to take to the witness' % len(bad))
     wamb = 0
     for kind, hist, exp, got in bad:
